@@ -11,17 +11,26 @@ import json, os
 from . import lib
 
 
-def _corrupt_guard(ctx, module, src, mutate, what):
-    """vacuity guard: a recorded trace with one field altered must be rejected by the trace spec"""
-    recs = lib.read_ndjson(src)
-    if not mutate(recs):
-        raise lib.ModelFailure("could not build the corrupted trace (%s)" % what)
+def _corrupt_guard(ctx, module, srcs, mutations):
+    """vacuity guard: recorded lines with one field altered each (each mutation alters a different line) must ALL be
+    rejected by the trace spec.  mutations: [(function(recs) -> index of the altered record or None, description)]"""
+    recs = []
+    for s in srcs:
+        recs += lib.read_ndjson(s)
+    altered = []
+    for fn, what in mutations:
+        i = fn(recs, set(altered))
+        if i is None:
+            raise lib.ModelFailure("could not build the corrupted trace (%s)" % what)
+        altered.append(i)
     p = os.path.join(ctx.work, "corrupt-%s.ndjson" % module)
     lib.write_ndjson(p, recs)
     ok, r, at = lib.validate_trace(module, p, timeout=600, heap="3g")
-    if ok and not lib.unexplained(r):
-        raise lib.ModelFailure("vacuity guard: %s accepted a corrupted trace (%s)" % (module, what))
-    ctx.notes.append("vacuity guard: %s rejects a trace with %s" % (module, what))
+    bad = {ln for ln, _ in lib.unexplained(r)}
+    for i, (fn, what) in zip(altered, mutations):
+        if (i + 1) not in bad:
+            raise lib.ModelFailure("vacuity guard: %s accepted a corrupted line (%s)" % (module, what))
+        ctx.notes.append("vacuity guard: %s rejects a trace with %s" % (module, what))
 
 
 def _first_lines(path, pred, n):
@@ -81,7 +90,7 @@ def run(ctx):
     work = []   # (module, chunk path)
     for module, t in jobs:
         if module == "Trace_Subsets":
-            chunks = lib.split_trace(t, os.path.join(ctx.work, "chunks"), maxlines=4000)
+            chunks = lib.split_trace(t, os.path.join(ctx.work, "chunks"), maxlines=6000 if q else 3000)
             if not ctx.replay and os.path.getsize(t) > 30e6:
                 os.remove(t)     # keep the scratch directory small: the chunks are copies
         else:
@@ -169,52 +178,56 @@ def run(ctx):
         small = os.path.join(ctx.work, "guard-src.ndjson")
         open(small, "w").writelines(head)
 
-        def drop_view(recs):
-            for rec in recs:
-                if rec["e"] == "Subsets" and rec["N"] >= 2 and len(rec["subs"][1]) > 0:
+        def drop_view(recs, used):
+            for i, rec in enumerate(recs):
+                if i not in used and rec["e"] == "Subsets" and rec["N"] >= 2 and len(rec["subs"][1]) > 0:
                     rec["subs"][1] = rec["subs"][1][:-1]
-                    return True
-            return False
+                    return i
+            return None
 
-        def flip_bal(recs):
-            for rec in recs:
-                if rec["e"] == "Subsets" and rec["N"] >= 2:
+        def flip_bal(recs, used):
+            for i, rec in enumerate(recs):
+                if i not in used and rec["e"] == "Subsets" and rec["N"] >= 2:
                     rec["bal"] = not rec["bal"]
-                    return True
-            return False
-        _corrupt_guard(ctx, "Trace_Subsets", small, drop_view, "one view/segment removed from a subset")
-        _corrupt_guard(ctx, "Trace_Subsets", small, flip_bal, "the balance verdict inverted")
-        sched = t3
+                    return i
+            return None
+        _corrupt_guard(ctx, "Trace_Subsets", [small], [(drop_view, "one view/segment removed from a subset"), (flip_bal, "the balance verdict inverted")])
         shead = os.path.join(ctx.work, "guard-sched.ndjson")
-        open(shead, "w").writelines(open(sched).readlines()[:200])
+        open(shead, "w").writelines(open(t3).readlines()[:200] + open(t6).readlines()[:120])
 
-        def repeat_subset(recs):
-            for rec in recs:
-                if rec["e"] == "SchedRun" and rec["used"] >= 2 and len(rec["subsets"]) >= 2 * rec["used"] and rec["startSubiter"] == 1:
+        def repeat_subset(recs, used):
+            for i, rec in enumerate(recs):
+                if i not in used and rec["e"] == "SchedRun" and rec["used"] >= 2 and len(rec["subsets"]) >= 2 * rec["used"] and rec["startSubiter"] == 1:
                     rec["subsets"][1] = rec["subsets"][0]
-                    return True
-            return False
-        _corrupt_guard(ctx, "Trace_IterSchedule", shead, repeat_subset, "a subset used twice in one full iteration")
-        ehead = os.path.join(ctx.work, "guard-events.ndjson")
-        open(ehead, "w").writelines(open(t6).readlines()[:120])
+                    return i
+            return None
 
-        def drop_final_write(recs):
-            for rec in recs:
-                if rec["e"] == "EventRun" and rec["ev"] and rec["ev"][-1][0] == 7 and not rec["err"]:
+        def drop_final_write(recs, used):
+            for i, rec in enumerate(recs):
+                if i not in used and rec["e"] == "EventRun" and rec["ev"] and rec["ev"][-1][0] == 7 and not rec["err"]:
                     rec["ev"] = rec["ev"][:-1]
-                    return True
-            return False
+                    return i
+            return None
 
-        def filter_one_late(recs):
-            for rec in recs:
-                if rec["e"] == "EventRun" and not rec["err"]:
+        def filter_one_late(recs, used):
+            for i, rec in enumerate(recs):
+                if i not in used and rec["e"] == "EventRun" and not rec["err"]:
                     for e in rec["ev"]:
                         if e[0] == 5 and e[1] + 1 <= rec["numSubiters"]:
                             e[1] += 1
-                            return True
-            return False
-        _corrupt_guard(ctx, "Trace_IterSchedule", ehead, drop_final_write, "the write of the final iterate removed")
-        _corrupt_guard(ctx, "Trace_IterSchedule", ehead, filter_one_late, "an inter-iteration filter application moved to the next sub-iteration")
+                            return i
+            return None
+
+        def wrong_file_name(recs, used):
+            for i, rec in enumerate(recs):
+                if i not in used and rec["e"] == "EventRun" and rec["files"] and not rec["err"]:
+                    rec["files"][-1] = rec["files"][-1] + "0"
+                    return i
+            return None
+        _corrupt_guard(ctx, "Trace_IterSchedule", [shead],
+                       [(repeat_subset, "a subset used twice in one full iteration"), (drop_final_write, "the write of the final iterate removed"),
+                        (filter_one_late, "an inter-iteration filter application moved to the next sub-iteration"),
+                        (wrong_file_name, "a file name altered")])
     ctx.extra["configurations"] = nconf
     ctx.extra["subset_tables"] = nsub
     ctx.extra["schedule_runs"] = nrun
